@@ -26,6 +26,8 @@ type Feat struct {
 	Funcs, Slices, Strings, Switch, ForRange, For3, FileOps, AppCalls, Input, MultiRet, Panic, Comments bool
 	MaxTop, MaxBody, MaxDepth, MaxExpr, MaxFuncs int
 	PublicFuncs                              bool // generate exported (capitalised) functions and globals
+	Tiny                                     bool // one or two statements only
+	NoStrLit                                 bool // sparse programs: string values only from variables, itoa, defaults — no string literal anywhere
 	NamePool                                 bool // draw function names from a small shared pool (different programs then define the same names in different orders)
 }
 
@@ -34,8 +36,13 @@ func RandomFeat(r *Rng) Feat {
 	f := Feat{
 		Funcs: r.Chance(75), Slices: r.Chance(55), Strings: r.Chance(75), Switch: r.Chance(40),
 		ForRange: r.Chance(40), For3: r.Chance(60), FileOps: r.Chance(30), AppCalls: r.Chance(25),
-		Input: r.Chance(12), MultiRet: r.Chance(40), Panic: r.Chance(20), Comments: r.Chance(30),
+		Input: r.Chance(12), MultiRet: r.Chance(40), Panic: r.Chance(20), Comments: r.Chance(30), NoStrLit: r.Chance(12),
 		MaxTop: r.Range(1, 8), MaxBody: r.Range(1, 4), MaxDepth: r.Range(1, 3), MaxExpr: r.Range(1, 3), MaxFuncs: r.Range(0, 4),
+	}
+	if r.Chance(20) {
+		// tiny programs: one or two statements, so that a construct appears alone
+		// (a helper or prologue that only ONE statement kind triggers becomes visible)
+		f.MaxTop, f.MaxFuncs, f.MaxBody, f.Tiny = r.Range(1, 2), 0, 1, true
 	}
 	return f
 }
@@ -78,6 +85,8 @@ type pgen struct {
 	funcs  []FuncSig // callable from here (qualified names for imports)
 	indent int
 	swDepth int // nesting depth of switch statements at the point of emission
+	curRets []string // return types of the function being generated (nil at top level)
+	inFn    bool
 }
 
 func (g *pgen) fresh(prefix string) string {
@@ -97,6 +106,9 @@ func (g *pgen) line(format string, a ...any) {
 var words = []string{"alpha", "beta", "gamma", "Hello World", "x", "", "a b", "one,two", "42", "file.txt", "tmp/data", "done", "OK: ", "-", "A", "zz top"}
 
 func (g *pgen) strLit() string {
+	if g.f.NoStrLit {
+		return "itoa(" + fmt.Sprint(g.r.Intn(50)) + ")"
+	}
 	w := g.r.Pick(words)
 	if g.r.Chance(8) {
 		return "`" + w + "`"
@@ -358,6 +370,9 @@ func (g *pgen) block(env []variable, n int, depth int, inFunc, inLoop bool, uppe
 			g.line("if %s {", g.expr("bool", env, 0))
 			g.indent++
 			g.block(env, r.Range(0, g.f.MaxBody), depth+1, inFunc, inLoop, false)
+			if g.inFn && inFunc && r.Chance(30) {
+				g.earlyReturn(env)
+			}
 			g.indent--
 			for r.Chance(30) {
 				g.line("} else if %s {", g.expr("bool", env, 0))
@@ -534,6 +549,55 @@ func (g *pgen) block(env []variable, n int, depth int, inFunc, inLoop bool, uppe
 	return env
 }
 
+// earlyReturn emits a return statement in the middle of a function (inside a
+// nested block): the right values, a forwarded or parenthesised call with the
+// same result list, or (rarely) a wrong number of values.
+func (g *pgen) earlyReturn(env []variable) {
+	r := g.r
+	rets := g.curRets
+	if len(rets) == 0 {
+		if r.Chance(10) {
+			g.line("return")
+		}
+		return
+	}
+	// a callable with exactly the same result list
+	var same []FuncSig
+	for _, f := range g.funcs {
+		if len(f.Rets) == len(rets) {
+			ok := true
+			for i := range rets {
+				if f.Rets[i] != rets[i] {
+					ok = false
+				}
+			}
+			if ok {
+				same = append(same, f)
+			}
+		}
+	}
+	k := r.Intn(10)
+	switch {
+	case k < 2 && len(same) > 0:
+		g.line("return %s", g.callExpr(Pick(r, same), env, 1))
+	case k < 4 && len(same) > 0:
+		g.line("return (%s)", g.callExpr(Pick(r, same), env, 1))
+	case k < 5 && len(rets) == 3 && rets[0] == "string" && rets[1] == "string" && rets[2] == "int":
+		g.line("return (@ls(%s))", g.expr("string", env, 2))
+	case k < 6:
+		g.line("return %s", g.expr(rets[0], env, 1)) // possibly too few values
+	default:
+		vals := make([]string, len(rets))
+		for i, t := range rets {
+			vals[i] = g.expr(t, env, 1)
+			if r.Chance(15) {
+				vals[i] = "(" + vals[i] + ")"
+			}
+		}
+		g.line("return %s", strings.Join(vals, ", "))
+	}
+}
+
 func (g *pgen) funcDef(globals []variable, public bool) FuncSig {
 	r := g.r
 	prefix := "f"
@@ -575,6 +639,9 @@ func (g *pgen) funcDef(globals []variable, public bool) FuncSig {
 	for i := 0; i < nret; i++ {
 		sig.Rets = append(sig.Rets, Pick(r, g.types()))
 	}
+	if g.f.MultiRet && g.f.Strings && r.Chance(10) {
+		sig.Rets = []string{"string", "string", "int"}
+	}
 	head := fmt.Sprintf("func %s(%s)", sig.Name, strings.Join(ps, ", "))
 	if len(ps) == 0 && r.Chance(20) {
 		head = "func " + sig.Name
@@ -588,7 +655,9 @@ func (g *pgen) funcDef(globals []variable, public bool) FuncSig {
 	}
 	g.line("%s {", head)
 	g.indent++
+	g.curRets, g.inFn = sig.Rets, true
 	env = g.block(env, r.Range(0, g.f.MaxBody+1), 1, true, false, false)
+	g.curRets, g.inFn = nil, false
 	if len(sig.Rets) > 0 {
 		vals := make([]string, len(sig.Rets))
 		for i, t := range sig.Rets {
@@ -639,6 +708,20 @@ func GenProgram(r *Rng, f Feat, imports []ModuleRef, tag string) (string, []Func
 	public := []FuncSig{}
 	env := []variable{}
 	// a few globals first so that functions can use them
+	if f.Tiny {
+		// typed declarations without initial value for slices keep the program free of literals
+		for _, t := range []string{"[]string", "[]int", "string", "int"} {
+			if r.Chance(35) {
+				name := g.fresh("v")
+				if strings.HasPrefix(t, "[]") {
+					g.line("%s := %s{}", name, t)
+				} else {
+					g.line("var %s %s = %s", name, t, g.expr(t, env, g.f.MaxExpr))
+				}
+				env = append(env, variable{name, t})
+			}
+		}
+	}
 	env = g.block(env, r.Intn(3), g.f.MaxDepth, false, false, f.PublicFuncs)
 	if f.Funcs {
 		for n := r.Range(0, f.MaxFuncs); n > 0; n-- {
